@@ -180,7 +180,31 @@ def r2_setfh_order(L, repo):
                 env[st.targets[0].id] = subst_expr(st.value, env)
         from symfwd import subst_expr
         ma = subst_expr(c.args[2], env)
-        # unwrap list(...) and the identity comprehension [(a, b) for a, b in X]
+        # (a) decide by folding: evaluate the Mobile Allocation expression for witness commands whose channel
+        # lists are not monotone; the result must list the (Rx, Tx) pairs in the received order (a common unit
+        # factor is allowed). A reordering (sorted, reversed, swapped pair elements) shows up as a different list.
+        from consteval import Ev, Unknown, Raised
+        witnesses = [["SETFH", "1", "2", "30", "40", "10", "20", "50", "5"],
+                     ["SETFH", "0", "0", "7", "8"],
+                     ["SETFH", "63", "5", "900", "945", "880", "925", "1", "2", "890", "935"]]
+        folded = 0
+        for w in witnesses:
+            try:
+                got = Ev(repo, ci.mod, env={req: list(w)}, self_cls=ci).ev(ma)
+                got = [tuple(p_) for p_ in got]
+            except (Unknown, Raised, TypeError, ValueError):
+                break
+            folded += 1
+            raw = [(int(w[i]), int(w[i + 1])) for i in range(3, len(w) - 1, 2)]
+            k = None
+            flat = [x for p_ in got for x in p_]
+            tot = sum(a + b for a, b in raw)
+            if flat and all(isinstance(x, int) for x in flat) and sum(flat) % tot == 0:
+                k = sum(flat) // tot
+            exp = [(a * k, b * k) for a, b in raw] if k and k > 0 else raw
+            L.ob("C02.R2", F, fn, "SETFH %s: Mobile Allocation = the received <RXFn> <TXFn> pairs, in the received order"
+                 % " ".join(w[3:]), exp, got, got == exp, c.lineno)
+        # (b) prove it for every channel list: unwrap list(...) and the identity comprehension [(a, b) for a, b in X]
         order = None      # which zip operand feeds pair element 0 / 1
         e = ma
         if isinstance(e, ast.Call) and canon(e.func) in ("list", "tuple") and len(e.args) == 1:
@@ -334,9 +358,9 @@ def r5_who_may_call(L, repo, tier):
 
 def run(L, tier):
     repo = Repo(L.repo)
-    r1_forward_msg(L, repo)
-    resolver(L, repo, "get_rx_freq", "_rx_freq", 0)
-    resolver(L, repo, "get_tx_freq", "_tx_freq", 1)
-    r2_setfh_order(L, repo)
-    r3_ticks(L, repo)
-    r5_who_may_call(L, repo, tier)
+    L.stage(r1_forward_msg, L, repo)
+    L.stage(resolver, L, repo, "get_rx_freq", "_rx_freq", 0)
+    L.stage(resolver, L, repo, "get_tx_freq", "_tx_freq", 1)
+    L.stage(r2_setfh_order, L, repo)
+    L.stage(r3_ticks, L, repo)
+    L.stage(r5_who_may_call, L, repo, tier)
